@@ -187,6 +187,40 @@ Definition identity (i : bytes) : option (bytes * bytes * bytes) :=
 Definition take_while_max (p : byte -> bool) (max : nat) (l : bytes) : nat :=
   Nat.min max (count_while p l).
 
+(* the part of the time tuple after "<seconds> ": sign run, HH, MM, trailing digits -> (offset, minus, rest) *)
+Definition tz_tail (i1 : bytes) : option (Z * bool * bytes) :=
+  let nminus := count_while (fun b => beqb b "-"%byte) i1 in
+  let nplus := count_while (fun b => beqb b "+"%byte) i1 in
+  let sign_and_rest :=
+    if 0 <? nminus then Some (true, skipn nminus i1)
+    else if 0 <? nplus then Some (false, skipn nplus i1)
+    else None in
+  match sign_and_rest with
+  | None => None
+  | Some (minus, i2) =>
+      if count_while is_digit i2 <? 2 then None                  (* take_while(2, digit) *)
+      else
+        match to_signed_i32 (firstn 2 i2) with
+        | None => None
+        | Some hours =>
+            let i3 := skipn 2 i2 in
+            let nm := take_while_max is_digit 2 i3 in             (* take_while(1..=2, digit) *)
+            if nm <? 1 then None
+            else
+              match to_signed_i32 (firstn nm i3) with
+              | None => None
+              | Some minutes =>
+                  let i4 := skipn nm i3 in
+                  let ntrail := count_while is_digit i4 in
+                  let offset :=
+                    if ntrail =? 0
+                    then ((hours * 3600 + minutes * 60) * (if minus then -1 else 1))%Z
+                    else 0%Z in
+                  Some (offset, minus, skipn ntrail i4)
+              end
+        end
+  end.
+
 (* the optional time tuple; None = the tuple did not match (input is then left untouched) *)
 Definition time_tuple (i : bytes) : option (time * bytes) :=
   match find_byte SP i with                      (* take_until(0.., " ") then take(1) *)
@@ -195,37 +229,9 @@ Definition time_tuple (i : bytes) : option (time * bytes) :=
       match to_signed_i64 (firstn p i) with
       | None => None
       | Some secs =>
-          let i1 := skipn (S p) i in
-          let nminus := count_while (fun b => beqb b "-"%byte) i1 in
-          let nplus := count_while (fun b => beqb b "+"%byte) i1 in
-          let sign_and_rest :=
-            if 0 <? nminus then Some (true, skipn nminus i1)
-            else if 0 <? nplus then Some (false, skipn nplus i1)
-            else None in
-          match sign_and_rest with
+          match tz_tail (skipn (S p) i) with
           | None => None
-          | Some (minus, i2) =>
-              if count_while is_digit i2 <? 2 then None                  (* take_while(2, digit) *)
-              else
-                match to_signed_i32 (firstn 2 i2) with
-                | None => None
-                | Some hours =>
-                    let i3 := skipn 2 i2 in
-                    let nm := take_while_max is_digit 2 i3 in             (* take_while(1..=2, digit) *)
-                    if nm <? 1 then None
-                    else
-                      match to_signed_i32 (firstn nm i3) with
-                      | None => None
-                      | Some minutes =>
-                          let i4 := skipn nm i3 in
-                          let ntrail := count_while is_digit i4 in
-                          let offset :=
-                            if ntrail =? 0
-                            then ((hours * 3600 + minutes * 60) * (if minus then -1 else 1))%Z
-                            else 0%Z in
-                          Some (mkTime secs offset minus, skipn ntrail i4)
-                      end
-                end
+          | Some (offset, minus, r) => Some (mkTime secs offset minus, r)
           end
       end
   end.
